@@ -19,8 +19,11 @@ JudgePair(o) ==
        /\ Chk(o.real = ImplCA(A, B, FALSE) \/ Dev_EnumMetaclassProtocol(A, B), o.tid, "drift:can_assign")
        /\ Chk(o.realx = ImplCA(A, B, TRUE) \/ Dev_EnumMetaclassProtocol(A, B), o.tid, "drift:can_assign_exclude_any")
        /\ Chk(o.realx => o.real, o.tid, "viol:ExcludeAnyMonotone")
-       /\ Chk((Static(A) /\ Static(B) /\ o.real /\ ~Lenient(A, B)) => \A x \in Objects : Member(x, B) => Member(x, A),
-              o.tid, IF Dev_EnumMetaclassProtocol(A, B) THEN "dev:enum-instance-accepted-as-iterable" ELSE "viol:Sound")
+       /\ Chk((Static(A) /\ Static(B) /\ o.real /\ ~Lenient(A, B)) => \A x \in AObjects : Member(x, B) => Member(x, A),
+              o.tid, IF Dev_EnumMetaclassProtocol(A, B) THEN "dev:enum-instance-accepted-as-iterable"
+                     \* (excused only where the model of the deviating mechanism reproduces the observed verdict)
+                     ELSE IF Dev_TypedDictAsPlainDict(A, B) /\ o.real = ImplCA(A, B, FALSE) THEN "dev:typeddict-as-plain-dict"
+                     ELSE "viol:Sound")
        /\ Chk(ImplEq(A, B) /\ A = B => o.real, o.tid, "viol:Reflexive")
        /\ Chk(B = Never => o.real, o.tid, "viol:NeverBottom")
        /\ Chk(A = Typed("object") /\ Static(B) => o.real, o.tid, "viol:ObjectTop")
